@@ -134,6 +134,8 @@ func Run(c *vh.Ctx) {
 			r.runH(cs)
 		case "rs":
 			r.runRSAny(cs)
+		case "e":
+			r.runE(cs)
 		default:
 			r.runCase(cs, true)
 		}
@@ -149,7 +151,7 @@ func Run(c *vh.Ctx) {
 		return
 	}
 
-	c.Res.Rule = "triples: every (array shape x aliasing route x mutation x written side) of the catalogue (10 shapes: list, permuted list, empty, string-keyed, mixed, sparse, nested to depth 2 and 3, nested under string keys; 13 single-edge routes: assignment, by-value parameter with the write inside the callee, function return, getter, property read, property store, setter, element store, element append, array-literal item, element read, foreach value, clone; 22 composite routes: a call result — getter, element of a by-value copy — handed straight to a function / method / static method / constructor / closure / named parameter, an assignment, an element store / append, a property store / setter; 23 mutations: int/sparse/string/array store, append, unset, push/pop/shift/unshift/sort as method and as array_* function, and their nested forms one and two levels down); seeded programs of 4-14 statements over 4 variables, 2 object properties, with explicit references and handle copies; keyed-literal (ObjectValue) triples; composite-route cases: owner x producer expression x by-value sink x flat mutation x shape x scope, one script each; scalar-payload cases: element kind (string, numeric string, float, bool, null, int, mixed) x container shape (list, string-keyed, keyed literal, nested to depth 3) x copy route (every single-edge route, the call boundaries, built-ins, one literal as common source, payload shared with a scalar variable) x mutation form (every compound assignment, ++/--, string offset write, string / array methods, sort family, array_walk / foreach / parameter / variable by reference, destructuring, unset, append) x written side, one script each; history cases: the same product with a PAST — before the copy edge the source goes through an operation that leaves no reference behind (an element bound to a by-reference parameter of a function / method / constructor / closure / generator in 36 forms, every built-in with a by-reference parameter, foreach by reference, by-reference callbacks, references inside callees and aliases, a variable bound by & that has since gone), placed on the value before it enters the route or directly on the route's original; reference-slot programs over the vocabulary of Model.RefSlot (lit, copy, store, reference variable bound / written / released, by-reference calls) compared with the Lean model statement by statement; non-trivial = at least 3 statements; distinct = distinct statement list"
+	c.Res.Rule = "triples: every (array shape x aliasing route x mutation x written side) of the catalogue (10 shapes: list, permuted list, empty, string-keyed, mixed, sparse, nested to depth 2 and 3, nested under string keys; 13 single-edge routes: assignment, by-value parameter with the write inside the callee, function return, getter, property read, property store, setter, element store, element append, array-literal item, element read, foreach value, clone; 22 composite routes: a call result — getter, element of a by-value copy — handed straight to a function / method / static method / constructor / closure / named parameter, an assignment, an element store / append, a property store / setter; 23 mutations: int/sparse/string/array store, append, unset, push/pop/shift/unshift/sort as method and as array_* function, and their nested forms one and two levels down); seeded programs of 4-14 statements over 4 variables, 2 object properties, with explicit references and handle copies; keyed-literal (ObjectValue) triples; composite-route cases: owner x producer expression x by-value sink x flat mutation x shape x scope, one script each; scalar-payload cases: element kind (string, numeric string, float, bool, null, int, mixed) x container shape (list, string-keyed, keyed literal, nested to depth 3) x copy route (every single-edge route, the call boundaries, built-ins, one literal as common source, payload shared with a scalar variable) x mutation form (every compound assignment, ++/--, string offset write, string / array methods, sort family, array_walk / foreach / parameter / variable by reference, destructuring, unset, append) x written side, one script each; history cases: the same product with a PAST — before the copy edge the source goes through an operation that leaves no reference behind (an element bound to a by-reference parameter of a function / method / constructor / closure / generator in 36 forms, every built-in with a by-reference parameter, foreach by reference, by-reference callbacks, references inside callees and aliases, a variable bound by & that has since gone), placed on the value before it enters the route or directly on the route's original; edit-history cases: the source goes through 1-3 array editors (46: index forms, array_push / unshift / splice / walk / merge / pad, ->push / unshift / splice, by-reference parameters, destructuring, union-assign; inserting an array, removing elements, editing scalars) with copies made in between, then copy route x nested mutation x side; reference-slot programs over the vocabulary of Model.RefSlot (lit, copy, store, reference variable bound / written / released, by-reference calls) compared with the Lean model statement by statement; non-trivial = at least 3 statements; distinct = distinct statement list"
 
 	if f := os.Getenv("C06_PRELUDE_OUT"); f != "" { // development: the prelude, to replay a case on the CLI
 		os.WriteFile(f, []byte(fullPrelude()), 0o644)
@@ -168,6 +170,11 @@ func Run(c *vh.Ctx) {
 	if os.Getenv("C06_ONLY") == "h" { // development: the history stream alone
 		n := r.hEnumerate(c.Thorough(), c.Rand, c.N(1000, 30000))
 		c.Note("history only: %d cases", n)
+		return
+	}
+	if os.Getenv("C06_ONLY") == "e" { // development: the edit-history stream alone
+		n := r.eEnumerate(c.Thorough(), c.Rand, c.N(600, 20000))
+		c.Note("edit histories only: %d cases", n)
 		return
 	}
 	if os.Getenv("C06_ONLY") == "x" { // development: the composite-route stream alone
@@ -205,6 +212,13 @@ func Run(c *vh.Ctx) {
 	r.runCase(witnessCallResult(), true)
 	r.runCase(witnessConcat(), true)
 	r.runRS(rsWitnessParam(), "") // C06_sticky_mark_counterexample
+	// C06_summary_stale_counterexample / C06_summary_witness_outcomes, one per kind of editor of Model.Summary:
+	// flat at the last copy, an array enters through the editor, copy, nested write through the copy
+	for _, on := range []string{"idxNewInt", "idxAppend", "array_push", "pushM"} {
+		if cs := eByNames("flat|c."+on+"@via", "int/flat", "assign", "store", "copy"); cs != nil {
+			r.runE(cs)
+		}
+	}
 
 	// a tree on which programs keep killing the interpreter is reported after a bounded number of losses
 	tooManyCrashes := func() bool {
@@ -264,8 +278,12 @@ func Run(c *vh.Ctx) {
 	if tooManyCrashes() {
 		return
 	}
+	nE := r.eEnumerate(c.Thorough(), c.Rand, c.N(600, 20000))
+	if tooManyCrashes() {
+		return
+	}
 	c.Res.Exhaustive = true
-	c.Res.ExhaustiveWhat = fmt.Sprintf("all %d applicable (shape x route x mutation x side) triples of the catalogue against model and oracle; all %d keyed-literal triples against the oracle; %d intended-sharing expectations; %d composite-route cases (owner x producer expression x by-value sink x mutation x shape) against the oracle; %d scalar-payload cases (element kind x container shape x copy route x mutation form x written side: all for string lists and int lists, all along plain assignment, all under `.=`, all with the payload shared with a scalar variable; thorough: all for string and mixed elements and for lists) against the oracle; %d reference-slot programs (every `lit; lit; history; copy; write` with a history of by-reference calls in 7 forms / stores on the source, 3 copy forms, writes on either side; seeded programs with live reference variables) against Model.RefSlot (Cfg.counted) and the oracle; %d history cases (history prefix on the source before the copy edge x placement x element kind x shape x copy route x mutation form x written side: every prefix along assignment under 6 forms on 5 shapes, (prefix x route) pairs under a store, every mutation form for 3 prefixes; thorough: every (prefix x route x placement x side)) against the oracle", nTriples, nKV, len(shareCases), nX, nPL, nRS, nH)
+	c.Res.ExhaustiveWhat = fmt.Sprintf("all %d applicable (shape x route x mutation x side) triples of the catalogue against model and oracle; all %d keyed-literal triples against the oracle; %d intended-sharing expectations; %d composite-route cases (owner x producer expression x by-value sink x mutation x shape) against the oracle; %d scalar-payload cases (element kind x container shape x copy route x mutation form x written side: all for string lists and int lists, all along plain assignment, all under `.=`, all with the payload shared with a scalar variable; thorough: all for string and mixed elements and for lists) against the oracle; %d reference-slot programs (every `lit; lit; history; copy; write` with a history of by-reference calls in 7 forms / stores on the source, 3 copy forms, writes on either side; seeded programs with live reference variables) against Model.RefSlot (Cfg.counted) and the oracle; %d history cases (history prefix on the source before the copy edge x placement x element kind x shape x copy route x mutation form x written side: every prefix along assignment under 6 forms on 5 shapes, (prefix x route) pairs under a store, every mutation form for 3 prefixes; thorough: every (prefix x route x placement x side)) against the oracle; %d edit-history cases (start shape x sequence of 1-3 array editors — every index form, built-in, array method and by-reference form that puts an array into / removes elements from / edits the scalars of the element list — with copies interleaved x placement x copy route x mutation of the nested array x written side: every editor alone with and without a copy before it on 4 start shapes, (inserting editor x route) pairs, every ordered pair of editors with an inserting one; thorough: all copy patterns and every triple around an inserting editor) against the oracle", nTriples, nKV, len(shareCases), nX, nPL, nRS, nH, nE)
 
 	// ---- 2. seeded programs, writes at depth 1 only (the discipline of the _partial theorem)
 	g := &gen{r: c.Rand, nv: 4}
@@ -362,6 +380,10 @@ func resolve(cs *Case) *Case {
 		}
 	case "h-ref": // {"kind":"h-ref","hist":"<prefix>@<placement>","shape":"<kind>/<shape>","route":..,"mut":..,"side":..}
 		if t := hByNames(cs.Hist, cs.Shape, cs.Route, cs.Mut, cs.Side); t != nil {
+			return t
+		}
+	case "e-ref": // {"kind":"e-ref","hist":"<start>|<step>,<step>@<placement>","shape":"<kind>/<start>","route":..,"mut":..,"side":..}
+		if t := eByNames(cs.Hist, cs.Shape, cs.Route, cs.Mut, cs.Side); t != nil {
 			return t
 		}
 	case "kv-ref":
